@@ -50,6 +50,7 @@ import (
 	"os"
 	"slices"
 	"sync"
+	"sync/atomic"
 	"time"
 
 	"github.com/ovh/kmip-go"
@@ -370,6 +371,10 @@ type Client struct {
 	dialer            DialerFunc
 	middlewares       []Middleware
 	addr              string
+	// closed is set by Close(). connLock guards conn against a Close()
+	// running concurrently with a reconnection.
+	closed   atomic.Bool
+	connLock sync.Mutex
 }
 
 // Dial establishes a connection to the KMIP server at the specified address using the provided options.
@@ -484,20 +489,41 @@ func (c *Client) Addr() string {
 // Close terminates the client's connection and releases any associated resources.
 // It returns an error if the connection could not be closed.
 func (c *Client) Close() error {
-	return c.conn.Close()
+	c.closed.Store(true)
+	c.connLock.Lock()
+	conn := c.conn
+	c.connLock.Unlock()
+	if conn == nil {
+		return nil
+	}
+	return conn.Close()
 }
 
 func (c *Client) reconnect(ctx context.Context) error {
 	// fmt.Println("Reconnecting")
 	if c.conn != nil {
 		_ = c.conn.Close()
+		c.connLock.Lock()
 		c.conn = nil
+		c.connLock.Unlock()
+	}
+	if c.closed.Load() {
+		return net.ErrClosed
 	}
 	stream, err := c.dialer(ctx)
 	if err != nil {
 		return err
 	}
-	c.conn = newConn(stream)
+	conn := newConn(stream)
+	c.connLock.Lock()
+	c.conn = conn
+	closed := c.closed.Load()
+	c.connLock.Unlock()
+	if closed {
+		// Close() has been called while dialing
+		_ = conn.Close()
+		return net.ErrClosed
+	}
 	return nil
 }
 
